@@ -1,12 +1,172 @@
 package main
 
 import (
+	"fmt"
+	"math/rand"
+	"sort"
+	"strings"
+	"sync"
+	"time"
+
 	"verifh/adapters"
 	"verifh/common"
 )
 
-// runGotests validates the compiler test pairs (reference artefact: the .expectpcal translated by pcal) — wired
-// in once the gotests adapters are complete.
+func hashName(s string) int64 {
+	var h int64 = 1469598103
+	for _, c := range []byte(s) {
+		h = h*1099511 + int64(c)
+	}
+	return h & 0x7fffffff
+}
+
+func labelUniverse(sim *adapters.Sim) map[string]bool {
+	out := map[string]bool{}
+	for _, p := range sim.Sched.Procs {
+		for name := range p.Arch.JumpTable {
+			if !strings.HasSuffix(name, ".Done") {
+				out[name] = true
+			}
+		}
+	}
+	return out
+}
+
+// runGotests validates the compiler test pairs. Reference artefact: the checked-in `.expectpcal` (output of PGo's
+// MPCal->PlusCal pass) translated to TLA+ by the installed pcal at run time, into scratch. Every recorded step is
+// checked on its own by TLC against the action of the label the process was at, with the pre-state pinned as the
+// initial state and every variable of the successor pinned (adapters.GotestsValidateBatch), the first state against
+// Init, and the way a Go run ended (assertion, evaluation panic) against what the artefact does in the last state.
+// Pure operators (ExprTests and every define block) are compared value by value through TLC.
 func runGotests(r *common.Run, scratch string, facs []adapters.Factory, stats map[string]*pairStats, samples *common.SampleKeeper, perPair int) int {
-	return 0
+	adapters.GotestsSetScratch(scratch)
+	var gfacs []adapters.Factory
+	for _, f := range facs {
+		if strings.HasPrefix(f.Name, "gotests/") {
+			gfacs = append(gfacs, f)
+		}
+	}
+	runsPer := r.Pick(4, 24)
+	type ran struct {
+		seed int64
+		sim  *adapters.Sim
+		out  adapters.Outcome
+	}
+	runs := map[string][]ran{}
+	never := map[string][]string{}
+	universe := map[string]map[string]bool{}
+	evals := 0
+	for _, f := range gfacs {
+		universe[f.Name] = map[string]bool{}
+		for i := 0; i < runsPer; i++ {
+			s := r.Seed*1_000_003 + int64(i)
+			rng := rand.New(rand.NewSource(s ^ hashName(f.Name)))
+			sim := f.New(s, true, rng)
+			x := adapters.GotestsExtraOf(sim)
+			if x == nil || x.Spec == nil || x.Spec.Err != nil {
+				why := "factory did not return a gotests sim"
+				if x != nil && x.Spec != nil && x.Spec.Err != nil {
+					why = x.Spec.Err.Error()
+				}
+				r.Inconclusive(fmt.Sprintf("%s: artefact not usable: %s", f.Name, why))
+				break
+			}
+			for l := range labelUniverse(sim) {
+				universe[f.Name][l] = true
+			}
+			for _, rep := range x.Spec.Repairs {
+				r.Note("%s: artefact repaired in scratch before it would load: %s", f.Name, rep)
+			}
+			out := adapters.GotestsRun(sim, sim.MaxSteps, true)
+			runs[f.Name] = append(runs[f.Name], ran{s, sim, out})
+			evals++
+			stats[f.Name].Runs++
+			for l, c := range out.Labels {
+				stats[f.Name].Labels[l] += c
+			}
+		}
+	}
+	var mu sync.Mutex
+	common.Parallel(len(gfacs), r.Pick(5, 10), func(k int) {
+		f := gfacs[k]
+		rs := runs[f.Name]
+		if len(rs) == 0 {
+			return
+		}
+		var cases []adapters.GotestsCase
+		for _, x := range rs {
+			cases = append(cases, adapters.GotestsCase{Sim: x.sim, Out: x.out})
+		}
+		reps, _ := adapters.GotestsValidateBatch(scratch, cases, 20*time.Minute)
+		mu.Lock()
+		defer mu.Unlock()
+		st := stats[f.Name]
+		for i, rep := range reps {
+			sim, out, s := rs[i].sim, rs[i].out, rs[i].seed
+			st.TracesSubmitted++
+			if rep.FullyAccepted {
+				st.TracesAccepted++
+			}
+			st.StatesValidated += rep.StepsAccepted
+			for l := range rep.LabelsAccepted {
+				st.Shapes[l] = true
+			}
+			for _, in := range rep.Inconclusive {
+				st.Inconclusive++
+				r.Inconclusive(fmt.Sprintf("%s seed=%d: %s", f.Name, s, in))
+			}
+			for _, n := range rep.HarnessNotes {
+				r.Note("%s: %s", f.Name, n)
+			}
+			for _, rej := range rep.Rejections {
+				st.Rejected++
+				r.Report(rej.Key, fmt.Sprintf("%s: %s at step %d (%s): the generated Go and the PlusCal artefact disagree", f.Name, rej.Kind, rej.At, rej.Step),
+					map[string]any{"pair": f.Name, "seed": s, "params": sim.Params, "steps": out.StepLog, "rejection": rej})
+			}
+			if i == 0 {
+				samples.Add(map[string]any{"pair": f.Name, "seed": s, "params": sim.Params, "steps_recorded": rep.StepsRecorded, "steps_accepted": rep.StepsAccepted, "end": rep.EndAgreement, "first_steps": head(out.StepLog, 10)})
+			}
+		}
+		var nv []string
+		for l := range universe[f.Name] {
+			if st.Labels[l] == 0 {
+				nv = append(nv, l)
+			}
+		}
+		sort.Strings(nv)
+		never[f.Name] = nv
+	})
+	for n, nv := range never {
+		if len(nv) > 0 {
+			r.Note("%s: labels never committed: %v", n, nv)
+		}
+	}
+	for pair, why := range adapters.GotestsPairsWithoutSteps {
+		r.Note("%s: nothing to run: %s", pair, why)
+	}
+	// operators
+	ops := runOperatorPairs(scratch, r.Seed, r.Tier, false)
+	for _, o := range ops {
+		name := "operators/" + o.Pair
+		st := &pairStats{Labels: map[string]int{}, Shapes: map[string]bool{}}
+		stats[name] = st
+		st.Runs = o.Compared
+		st.TracesSubmitted, st.TracesAccepted, st.StatesValidated = o.Compared, o.Agree+o.BothError, o.Agree+o.BothError
+		evals += o.Compared
+		for i := 0; i < o.Operators; i++ {
+			st.Shapes[fmt.Sprintf("op%d", i)] = true
+		}
+		for _, in := range o.Inconclusive {
+			st.Inconclusive++
+			r.Inconclusive(name + ": " + in)
+		}
+		for _, n := range o.Notes {
+			r.Note("%s: %s", name, n)
+		}
+		for k, ms := range o.Mismatch {
+			st.Rejected += len(ms)
+			r.Report(k, fmt.Sprintf("%s: Go operator and TLC disagree: %s", name, ms[0]), map[string]any{"pair": name, "mismatches": ms})
+		}
+	}
+	return evals
 }
